@@ -158,3 +158,49 @@ func VerifC19_GraceRegistryOnlyTouchedUnderItsLock() {
 	}
 	verifrt.EndGuard()
 }
+
+// VerifC19_GraceCleanerOnlyRemovesOutdatedRecords: the periodic cleaner walks the records of every rollout.  What it
+// removes is decided record by record: a record older than the interval goes, a younger one stays — whatever other
+// keys hold, and in whichever order the registry is walked.  (A fresh record removed because *another* rollout left a
+// stale one of the same action makes that rollout skip its grace period.)
+func VerifC19_GraceCleanerOnlyRemovesOutdatedRecords() {
+	e := NewGraceExpectations()
+	keys := []string{"ns/orders/svc", "ns/orders-v2/svc", "ns2/orders/svc"}
+	actions := []Action{"patchService", "restoreGateway"}
+	interval := 300
+	type rec struct {
+		key    string
+		action Action
+		age    int
+	}
+	var recs []rec
+	now := time.Now()
+	for _, k := range keys[:verifrt.Bound("keys", 2, 3)] {
+		for _, a := range actions {
+			if !verifrt.Bool("record.exists") {
+				continue
+			}
+			age := verifrt.IntRange("record.ageSeconds", 0, 600)
+			verifrt.Assume(age != interval) // the boundary second itself is not claimed either way
+			t := now.Add(-time.Duration(age) * time.Second)
+			if e.controllerCache[k] == nil {
+				e.controllerCache[k] = timeCache{}
+			}
+			e.controllerCache[k][a] = &t
+			recs = append(recs, rec{k, a, age})
+		}
+	}
+	e.CleanOutdatedItems(time.Duration(interval) * time.Second)
+	for _, r := range recs {
+		_, still := e.controllerCache[r.key][r.action]
+		if r.age < interval {
+			verifrt.Assert(still, "C19.grace.cleaner.freshRecordsSurviveWhateverOtherKeysHold")
+		} else {
+			verifrt.Assert(!still, "C19.grace.cleaner.outdatedRecordsRemoved")
+		}
+	}
+	for k, c := range e.controllerCache {
+		verifrt.Assert(len(c) > 0, "C19.grace.cleaner.noEmptyKeyLeftBehind")
+		_ = k
+	}
+}
